@@ -98,7 +98,10 @@ def sample_commb(rng, fixed):
     return {}
 
 
-@harness("C17", inputs={"tc1": Choice(*range(32), quick=TCQ), "tc2": Choice(*range(32), quick=TCQ),
+TCT = [0, 1, 2, 4, 5, 6, 8, 9, 11, 18, 19, 20, 22, 23, 28, 29, 31]
+
+
+@harness("C17", inputs={"tc1": Choice(*TCT, quick=TCQ), "tc2": Choice(*TCT, quick=TCQ),
                          "r1": BinStr(51), "r2": BinStr(51), "p1": BinStr(24), "p2": BinStr(24), "case1": BinStr(28),
                          "case2": BinStr(28), "t1": RealRange(0, 100000), "d12": RealRange(0, 400),
                          "dnow": RealRange(0, 400), "a2": Choice("A", "B")},
@@ -311,6 +314,13 @@ def adsb_base_establishes_invariant(tc, r, p, case, t, dnow):
 def adsb_step_preserves_invariant(has_tpos, pair, ver, nic, lat, lon, dtpos, dt0, dt1, m0, m1, nic_s, nic_a, nic_bc,
                                   t_last, tc_last, d, dnow, live_b, tc, ra, oe, rb, p, case):
     # (the CPR format bit, ME bit 22, is a case parameter so that the slot the message is filed under is concrete)
+    # case pruning: the stored pair, the NIC supplements and the version are only read for position type codes
+    # (5-18, 20-22; version also for 19, 29, 31): for the other type codes the two extreme states suffice
+    if not ((5 <= tc and tc <= 18) or (20 <= tc and tc <= 22)):
+        assume((pair == -1 or pair == 2) and (nic == 0 or nic == 3))
+        if not (tc == 19 or tc == 29 or tc == 31):
+            assume(ver is None or ver == 2)
+        assume(oe == 0)
     r = ra + bits_of(oe, 1) + rb
     dec = new_decoder()
     acs0 = {"012345": record("012345", live_b, 0)}
